@@ -211,4 +211,49 @@ example : (run 64 {} [.new [10], .raise 10, .raise 10, .set [10, 12], .raise 12,
 
 example : (run 64 {} [.new [10], .raise 10, .set [10, 12], .dispatch]).handled 10 = 0 := by decide
 
+/-! ### signals the source was never told about -/
+
+/-- does the operation name signal `x`? -/
+def mentions (x : Nat) : Op → Bool
+  | .new l | .add l | .remove l | .set l => l.contains x
+  | .raise s => s == x
+  | _ => false
+
+/-- **A signal no operation names is left exactly as it was** — blocked by the application, by another `Signals`
+    source, or not at all: no step changes whether the thread blocks it, and it never becomes configured. -/
+theorem foreign_step (bound : Nat) (st : St) (o : Op) (x : Nat) (hm : st.mask x = false) (hn : mentions x o = false) :
+    (step bound st o).blocked x = st.blocked x ∧ (step bound st o).mask x = false := by
+  cases o with
+  | new l =>
+    have : SSet.ofList l x = false := by simpa [mentions, SSet.ofList] using hn
+    simp [step, block, SSet.union, this]
+  | add l =>
+    have : SSet.ofList l x = false := by simpa [mentions, SSet.ofList] using hn
+    by_cases ha : st.alive = true <;> simp [step, ha, block, SSet.union, this, hm]
+  | remove l =>
+    have : SSet.ofList l x = false := by simpa [mentions, SSet.ofList] using hn
+    by_cases ha : st.alive = true <;> simp [step, ha, unblock, SSet.diff, this, hm]
+  | set l =>
+    have : SSet.ofList l x = false := by simpa [mentions, SSet.ofList] using hn
+    by_cases ha : st.alive = true <;> simp [step, ha, unblock, block, SSet.diff, SSet.union, this, hm]
+  | dropSrc =>
+    by_cases ha : st.alive = true <;> simp [step, ha, unblock, SSet.diff, SSet.empty, hm]
+  | raise s =>
+    by_cases hb : st.blocked s = true <;> simp [step, hb, hm]
+  | dispatch =>
+    by_cases ha : st.alive = true <;> simp [step, ha, hm]
+
+theorem foreign_untouched (bound : Nat) (ops : List Op) (st : St) (x : Nat) (hm : st.mask x = false)
+    (hn : ∀ o ∈ ops, mentions x o = false) :
+    (run bound st ops).blocked x = st.blocked x ∧ (run bound st ops).mask x = false := by
+  induction ops generalizing st with
+  | nil => exact ⟨rfl, hm⟩
+  | cons o os ih =>
+    have h1 := foreign_step bound st o x hm (hn o (List.mem_cons_self))
+    have h2 := ih (step bound st o) h1.2 (fun o' ho' => hn o' (List.mem_cons_of_mem _ ho'))
+    simp only [run, List.foldl] at h2 ⊢
+    exact ⟨h2.1.trans h1.1, h2.2⟩
+
+example : (run 64 { blocked := fun s => s == 23 } [.new [10, 12], .set [12], .remove [12], .dropSrc]).blocked 23 = true := by decide
+
 end Verif.Props.C19
